@@ -347,6 +347,10 @@ def isConst : List B → List B → Bool
   | [], c :: _ => c == 0
   | k :: ks, c :: t => c == k && isConst ks t
 
+def nilBytes : List B := [110, 105, 108]
+def trueBytes : List B := [116, 114, 117, 101]
+def falseBytes : List B := [102, 97, 108, 115, 101]
+
 /-- token classification part of `tokenchar` (after the token is complete): `Except error value` -/
 def classifyToken (scan : List B → Option String) (buf : List B) (nonAscii : Bool) : Except String Value :=
   let b0 := buf.headD 0
@@ -358,9 +362,9 @@ def classifyToken (scan : List B → Option String) (buf : List B) (nonAscii : B
     match (if startNum then scan buf else none) with
     | some tag => .ok (.num tag)
     | none =>
-      if isConst (strBytes "nil") buf then .ok .nil
-      else if isConst (strBytes "false") buf then .ok (.bool false)
-      else if isConst (strBytes "true") buf then .ok (.bool true)
+      if isConst nilBytes buf then .ok .nil
+      else if isConst falseBytes buf then .ok (.bool false)
+      else if isConst trueBytes buf then .ok (.bool true)
       else if startDig then .error "symbol literal cannot start with a digit"
       else if !nonAscii || validUtf8 buf then .ok (.sym buf)
       else .error "invalid utf-8 in symbol"
